@@ -12,6 +12,7 @@ from nix_manipulator.expressions.expression import (
     coerce_expression,
 )
 from nix_manipulator.expressions.layout import empty_line, linebreak
+from nix_manipulator.expressions.path import NixPath
 from nix_manipulator.expressions.trivia import (
     collect_comment_trivia_between,
     format_interstitial_trivia_with_separator,
@@ -110,6 +111,9 @@ class UnaryExpression(TypedExpression):
             expression_str = self.expression.rebuild(indent=indent, inline=True)
 
         inline_sep = " " if self.between else ""
+        if self.operator == "-" and isinstance(self.expression, NixPath):
+            # `-./x` or `-a/b` would lex as a single path token.
+            inline_sep = " "
         between_str, operand_prefix = format_interstitial_trivia_with_separator(
             self.between,
             operand_layout,
